@@ -164,13 +164,19 @@ pub fn analyze_dir(
             .path();
 
         if file_path.is_dir() {
-            optimization_locations.extend(analyze_dir(
+            //Append the findings of the nested dir to the findings already recorded for the same target
+            for (target, locations) in analyze_dir(
                 file_path
                     .as_os_str()
                     .to_str()
                     .expect("Could not get nested dir"),
                 optimizations.clone(),
-            ))
+            ) {
+                optimization_locations
+                    .entry(target)
+                    .or_insert(vec![])
+                    .extend(locations);
+            }
         } else {
             let file_name = file_path
                 .file_name()
